@@ -40,3 +40,46 @@ package bgv
 //@   property C19
 //@   loopabs
 //@   ensures implies(isnil(err), t != 0 && !memb(chainid(rlweParams), t))
+
+// ---- the scalar / plaintext operand of an evaluator operation is not modified (property C09) ----
+//@ readonly Evaluator.Add op1
+//@   property C09
+
+//@ readonly Evaluator.AddNew op1
+//@   property C09
+
+//@ readonly Evaluator.Sub op1
+//@   property C09
+
+//@ readonly Evaluator.SubNew op1
+//@   property C09
+
+//@ readonly Evaluator.Mul op1
+//@   property C09
+
+//@ readonly Evaluator.MulNew op1
+//@   property C09
+
+//@ readonly Evaluator.MulRelin op1
+//@   property C09
+
+//@ readonly Evaluator.MulRelinNew op1
+//@   property C09
+
+//@ readonly Evaluator.MulScaleInvariant op1
+//@   property C09
+
+//@ readonly Evaluator.MulScaleInvariantNew op1
+//@   property C09
+
+//@ readonly Evaluator.MulRelinScaleInvariant op1
+//@   property C09
+
+//@ readonly Evaluator.MulRelinScaleInvariantNew op1
+//@   property C09
+
+//@ readonly Evaluator.MulThenAdd op1
+//@   property C09
+
+//@ readonly Evaluator.MulRelinThenAdd op1
+//@   property C09
